@@ -4,6 +4,7 @@ from props.common import svt, gens, summarize_cfg
 
 ID = "C11"
 LEVEL = "exploration"
+TAG_KEYS = True   # violation keys get the configuration feature tag appended (engine.feature_tag)
 RULE = ("Hypothesis draws (configuration, content, N) weighted to the risk axes: QP 0-8 with noise/extreme content, sizes not multiple of 8 / of the SB, "
         "64x64, many tiles on small pictures, superres denominators 9-16, film grain 50, two-pass, screen content, 10-bit, intra period 0, hierarchical 5, "
         "RC modes; thorough adds 720p/1080p/4096x2160 short clips. Each case is a full init..EOS..teardown run of the clang ASan+UBSan build. Oracle: no ASan "
